@@ -150,6 +150,36 @@ Theorem C04_failed_unstarted_remote_fixed : forall types x s,
 Proof. exact failed_unstarted_remote_fixed_thm. Qed.
 Print Assumptions C04_failed_unstarted_remote_fixed.
 
+(* The start-up scan over the whole data directory (scanForUnits): what it does with the entry
+   of a name, and what the daemon then answers for it, is what it does with that entry alone —
+   no other entry's presence, content or failure and no position in the directory order enters. *)
+Theorem C04_scan_independent : forall types d n,
+  dlookup n (scan_dir types d) = option_map (scan_entry types) (dlookup n d).
+Proof. exact scan_independent_thm. Qed.
+Print Assumptions C04_scan_independent.
+
+Theorem C04_scan_other_entries_irrelevant : forall types d1 d2 n,
+  dlookup n d1 = dlookup n d2 ->
+  dlookup n (scan_dir types d1) = dlookup n (scan_dir types d2).
+Proof. exact scan_other_entries_irrelevant_thm. Qed.
+Print Assumptions C04_scan_other_entries_irrelevant.
+
+(* whatever is put in front of, behind or between: a unit is recovered as if it were alone *)
+Theorem C04_scan_crowd_irrelevant : forall types before after n x,
+  dlookup n before = None ->
+  dlookup n (scan_dir types (before ++ (n, DUnit x) :: after)) = Some (scan_entry types (DUnit x)).
+Proof. exact scan_crowd_irrelevant_thm. Qed.
+Print Assumptions C04_scan_crowd_irrelevant.
+
+(* a scan that gives up at the first entry it counts as a failure (whatever the criterion) never
+   reaches the unit behind it; the real one does *)
+Theorem C04_scan_stop_at_first_failure_refuted : forall fails types n1 n2 e x,
+  fails e = true -> n1 <> n2 ->
+  dlookup n2 (scan_stop fails types [(n1, e); (n2, DUnit x)]) = None /\
+  dlookup n2 (scan_dir types [(n1, e); (n2, DUnit x)]) = Some (scan_entry types (DUnit x)).
+Proof. exact scan_stop_refuted_thm. Qed.
+Print Assumptions C04_scan_stop_at_first_failure_refuted.
+
 (* the hypotheses of C04_partial are satisfiable by a non-trivial history: the finished unit of
    the refutation, the same operation of the daemon, killed one step later (after the rewrite) *)
 Example C04_nonvacuous :
